@@ -202,6 +202,15 @@ def wl_join(ctx, rng, case):
     apply_stream(sB, B)
     apply_stream(sAB, A + B)
     b_before = bytes(sB)
+    if rng.random() < 0.3:
+        # a join that is REFUSED (mismatched, non-empty argument) must leave the receiver as it was: the join proper follows
+        w2, d2 = rng.choice([(width + 1, depth), (width, depth + 1), (max(1, (width * depth) // (depth + 1)), depth + 1)])
+        bad = P.CountMinSketch(width=max(w2, 2), depth=d2, **bl.kw_hash(hf))
+        bad.add(rng.choice(keys), rng.choice([1, 5, 1700]))
+        try:
+            sA.join(bad)
+        except Exception:
+            ctx.count("refused_joins_before_the_join")
     sA.join(sB)
     ctx.check(bytes(sA) == bytes(sAB), "counters/total after join differ from the sketch fed both streams",
               got=refimpl.parse_cms(bytes(sA)), want=refimpl.parse_cms(bytes(sAB)))
